@@ -254,7 +254,7 @@ Definition do_record_validity (c : ctx) (v : list bool) (nl : N) : outcome ctx :
   do '(_, w') <- copy_n (c_specials c - passed) dr w;
   do nd <- commit w' (c_sdef c);
   Ok {| c_meaning := c_meaning c; c_rep := c_rep c; c_srep := c_srep c; c_def := nd; c_sdef := c_def c;
-        c_cur_rep := c_cur_rep c; c_cur_def := c_cur_def c; c_len := length v; c_specials := c_specials c |}.
+        c_cur_rep := c_cur_rep c; c_cur_def := c_cur_def c; c_len := (length v + c_specials c)%nat; c_specials := c_specials c |}.
 
 (* for _ in 1..len { write 0 } *)
 Definition push_zeros (k : N) (w : list N) : list N := zeros (N.to_nat (k - 1)) ++ w.
@@ -582,7 +582,7 @@ Definition unravel_offsets (u : unr) (offsets : list N) (validity : option (list
         | _ => Panic
         end;
       let layer' := S (u_layer u) in
-      let ml0 := N.max nl el in
+      let ml0 := N.max (N.max nl el) valid_level in
       let un := ml0 in
       let ml := bump_max_level (skipn layer' (u_meaning u)) ml0 in
       let curlen := last offsets 0 in
